@@ -418,7 +418,7 @@ def compare_block_processor(ctx, rep, stats):
         ctx.violation("crash-bp:" + pb["script"], "block processor on the controlled pool aborted / hung (rc=%s): %s :: %s" % (
             pb["rc"], pb["script"], pb["stderr"][-300:]), {"script": pb["script"], "stderr": pb["stderr"]})
     refmap = {w: dict(kv.split("=") for kv in r.split()) for (w, _), r in zip(wl, ref) if r.startswith("rc=")}
-    bad = d1 = nfail = 0
+    bad = d1 = nfail = swallowed = 0
     for l, (w, fail), a in zip(lines, meta, impl):
         if not a.startswith("rc="):
             continue
@@ -435,8 +435,18 @@ def compare_block_processor(ctx, rep, stats):
         elif want is None:
             continue
         elif fail:
-            if r["rc"] == "0" or r["rc"] != want["rc"]:
-                why = "compressor failure not reported: rc=%s, serial pool reports rc=%s" % (r["rc"], want["rc"])
+            # Both pools hand a failing item back non-NULL and dequeue_block only asks get_status on NULL, so a failure
+            # after which nothing is submitted any more is not noticed by the block processor (rc=0, block stored
+            # uncompressed) — with the serial pool always, with the threaded pool depending on the schedule.  That is
+            # C13's concern (docs/design/C09.md); here: the compressor's error or, if unnoticed, exactly the serial
+            # pool's output.
+            if r["rc"] == "0":
+                swallowed += 1
+                if want["rc"] != "0" or (r["sz"], r["out"], r["ino"]) != (want["sz"], want["out"], want["ino"]):
+                    why = "worker failure neither reported nor handled like the serial pool does (threaded %s / serial rc=%s out=%s)" % (
+                        a, want["rc"], want["out"])
+            elif r["rc"] != r["cerr"]:
+                why = "a failing compressor is reported as rc=%s instead of SQFS_ERROR_COMPRESSOR=%s" % (r["rc"], r["cerr"])
         elif (r["rc"], r["sz"], r["out"], r["ino"]) != (want["rc"], want["sz"], want["out"], want["ino"]):
             why = "failure-free output differs from the serial pool's (threaded %s / serial %s)" % (a, " ".join("%s=%s" % kv for kv in want.items()))
         if why:
@@ -445,6 +455,7 @@ def compare_block_processor(ctx, rep, stats):
                 ctx.violation("bp:" + l, "block processor on the controlled pool: %s; workload/schedule: %s" % (why, l),
                               {"bp_line": l, "impl": a, "serial": want})
     stats["bp"] = {"workloads": len(wl), "schedules": len(lines), "with_failing_block": nfail, "d1_deadlocks_pinned_code": d1,
+                   "failure_unnoticed_by_block_processor_like_serial_pool": swallowed,
                    "violations": bad, "wall_s": round(time.time() - t0, 1)}
     stats["disagreements"] += bad
 
